@@ -165,6 +165,24 @@ Theorem read_fault_never_masked :
 Proof. exact read_at_f_fault_ok. Qed.
 Print Assumptions read_fault_never_masked.
 
+(* [FULL] the scan over the per-replica write results acknowledges a write only if EVERY slot of the array,
+   one per tract and replica, is OK, and returns the first failing slot otherwise *)
+Theorem write_scan_covers_every_slot :
+  forall rs, scan_slots rs = E_OK <-> Forall (fun e => e = E_OK) rs.
+Proof. exact scan_slots_ok. Qed.
+Print Assumptions write_scan_covers_every_slot.
+
+(* [FULL] an acknowledged write is in place. For every tract length, replica count, set of armed per-replica write
+   faults, persistent or first-execution-only, state related to a sparse file f, offset and data, if WriteAt returns
+   no error then it wrote everything and the state is related to f with the data written at the offset, exactly as
+   the fault-free write, including the path through cache invalidation and re-execution *)
+Theorem write_ack_means_written :
+  forall tl repl fl st f off b n st', 0 < tl -> R tl st f -> (0 <= off)%Z ->
+    write_at_f tl repl fl st off b = ((n, E_OK), st') ->
+    n = rlen b /\ R tl st' (sf_write f (Z.to_N off) b).
+Proof. exact write_at_f_ack. Qed.
+Print Assumptions write_ack_means_written.
+
 (* non-vacuity: a concrete run exercising holes over part of a tract, a whole tract and several tracts *)
 Example sparse_example :
   map (fun x => (r_n x, r_err x)) (run repaired 16 (init_state true)
